@@ -699,6 +699,95 @@ Proof.
 Qed.
 End C11.
 
+(** * completeness direction (used by the closed loop): what an allowed batch MUST contain *)
+Section Complete.
+Context (P : params) (C : sctx).
+
+Lemma group_in_batch b c :
+  allowed P C (OBatch b) = true → c ∈ entries C →
+  ∃ pre, b = pre ++ kills C ∧ group_allowed P C c (group_of c pre) = true ∧
+         ∀ q, q ∈ group_of c pre → q ∈ b ∧ q_shard q = s_id c ∧ is_kill q = false.
+Proof.
+  intros (pre & Hb & Hnk & _ & Hgrp & _)%allowed_batch_inv Hc.
+  exists pre. split; [done|]. split; [by apply Hgrp|].
+  intros q Hq. unfold group_of in Hq. apply elem_of_list_filter in Hq as [Hs Hq].
+  rewrite Forall_forall in Hnk. split; [|split; [done|by apply Hnk]].
+  rewrite Hb. apply elem_of_app. by left.
+Qed.
+
+(* every member of the restore set gets its restore request *)
+Lemma sched_restore_complete b c n :
+  allowed P C (OBatch b) = true → c ∈ entries C → n ∈ restore_set P C c →
+  ∃ q, q ∈ b ∧ is_restore q = true ∧ q_shard q = s_id c ∧ q_inst q = r_id n ∧ q_raft q = r_addr n.
+Proof.
+  intros Hal Hc Hn.
+  destruct (group_in_batch b c Hal Hc) as (pre & Hb & Hg & Hin).
+  assert (has_restore P C c = true) as Hh.
+  { unfold has_restore. apply negb_true_iff, bool_decide_eq_false. intros Hnil. rewrite Hnil in Hn. by apply elem_of_nil in Hn. }
+  apply group_allowed_inv in Hg as [(_ & sd & _ & Hok)|(Hh' & _)]; [|congruence].
+  pose proof Hok as Hok'. unfold restore_group_ok in Hok'. apply bool_decide_eq_true in Hok' as [Hperm _].
+  assert ((r_id n, r_addr n) ∈ (λ q, (q_inst q, q_raft q)) <$> group_of c pre) as Hex.
+  { rewrite Hperm. apply elem_of_list_fmap. by exists n. }
+  apply elem_of_list_fmap in Hex as (q & Heq & Hq). injection Heq as Hi Hr.
+  destruct (Hin q Hq) as (Hqb & Hs & _).
+  destruct (restore_group_all P C c _ _ q Hok Hq) as [Hres _].
+  exists q. done.
+Qed.
+
+(* a shard that is not restored and whose repair branch is DELETE / join-CREATE / ADD gets that request *)
+Lemma sched_delete_complete b c :
+  allowed P C (OBatch b) = true → c ∈ entries C → has_restore P C c = false → repair_action P C c = ADelete →
+  ∃ q, q ∈ b ∧ q_shard q = s_id c ∧ delete_req_ok P C c q = true.
+Proof.
+  intros Hal Hc Hh Hact. destruct (group_in_batch b c Hal Hc) as (pre & Hb & Hg & Hin).
+  apply group_allowed_inv in Hg as [(Hh' & _)|(_ & Hcases)]; [congruence|].
+  destruct Hcases as [[Ha _]|[(_ & q & Hq & Hok)|[(sd & Ha & _)|(Ha & _)]]]; try congruence.
+  exists q. destruct (Hin q) as (? & ? & _); [rewrite Hq; apply elem_of_list_here|]. done.
+Qed.
+
+Lemma sched_join_complete b c sd :
+  allowed P C (OBatch b) = true → c ∈ entries C → has_restore P C c = false → repair_action P C c = ACreate sd →
+  ∃ q, q ∈ b ∧ q_shard q = s_id c ∧ join_req_ok P C c (sd_app sd) q = true.
+Proof.
+  intros Hal Hc Hh Hact. destruct (group_in_batch b c Hal Hc) as (pre & Hb & Hg & Hin).
+  apply group_allowed_inv in Hg as [(Hh' & _)|(_ & Hcases)]; [congruence|].
+  destruct Hcases as [[Ha _]|[(Ha & _)|[(sd' & Ha & q & Hq & Hok)|(Ha & _)]]]; try congruence.
+  rewrite Hact in Ha. injection Ha as <-.
+  exists q. destruct (Hin q) as (? & ? & _); [rewrite Hq; apply elem_of_list_here|]. done.
+Qed.
+
+Lemma sched_add_complete b c :
+  allowed P C (OBatch b) = true → c ∈ entries C → has_restore P C c = false → repair_action P C c = AAdd →
+  ∃ q, q ∈ b ∧ q_shard q = s_id c ∧ add_req_ok P C c q = true.
+Proof.
+  intros Hal Hc Hh Hact. destruct (group_in_batch b c Hal Hc) as (pre & Hb & Hg & Hin).
+  apply group_allowed_inv in Hg as [(Hh' & _)|(_ & Hcases)]; [congruence|].
+  destruct Hcases as [[Ha _]|[(Ha & _)|[(sd' & Ha & _)|(_ & q & Hq & Hok)]]]; try congruence.
+  exists q. destruct (Hin q) as (? & ? & _); [rewrite Hq; apply elem_of_list_here|]. done.
+Qed.
+
+(* a shard with nothing to do gets no request (other than KILLs of stray replicas) *)
+Lemma sched_quiet b c q :
+  allowed P C (OBatch b) = true → c ∈ entries C → has_restore P C c = false → repair_action P C c = ANone →
+  q ∈ b → q_shard q = s_id c → is_kill q = true.
+Proof.
+  intros Hal Hc Hh Hact Hq Hs. destruct (is_kill q) eqn:Hk; [done|]. exfalso.
+  destruct (group_in_batch b c Hal Hc) as (pre & Hb & Hg & Hin).
+  apply group_allowed_inv in Hg as [(Hh' & _)|(_ & Hcases)]; [congruence|].
+  destruct Hcases as [[_ Hnil]|[(Ha & _)|[(sd' & Ha & _)|(Ha & _)]]]; try congruence.
+  rewrite Hb in Hq. apply elem_of_app in Hq as [Hq|Hq].
+  - assert (q ∈ group_of c pre) as Hq' by (unfold group_of; apply elem_of_list_filter; done).
+    rewrite Hnil in Hq'. by apply elem_of_nil in Hq'.
+  - apply kills_are_kill in Hq. congruence.
+Qed.
+
+(* when the round is dropped / panics *)
+Lemma sched_error_inv : allowed P C OError = true → ∃ c, c ∈ entries C ∧ err_entry P C c = true.
+Proof.
+  cbn [allowed]. intros [_ Hex]%andb_true_iff. apply existsb_exists in Hex as (c & Hc%elem_of_list_In & He). by exists c.
+Qed.
+End Complete.
+
 (** * decidability of [ctx_wf] (for closed examples) *)
 Global Instance shard_wf_dec k c : Decision (shard_wf k c).
 Proof. unfold shard_wf. apply _. Defined.
